@@ -134,6 +134,11 @@ func emitAddr(s *Stream, text string) {
 	if err != nil {
 		s.Emit("addr "+hxs(text)+" invalid", "-")
 	} else {
+		// the model's `enc` is the first text registered for an address: make sure that is the canonical one
+		// (String()), also when the first use of the address in a stream is an upper-case spelling
+		if canon := a.String(); canon != text {
+			s.Emit("addr "+hxs(canon)+" "+hx(a), "-")
+		}
 		s.Emit("addr "+hxs(text)+" "+hx(a), "-")
 	}
 }
